@@ -126,6 +126,27 @@ pub fn remove<const N: usize, const M: usize>() {
 // concrete four-element set every attempt hit a 20-30 minute cap (drain / filter / collect / extend on CBMC's heap model);
 // it is decided by the M binding audit in checks/c19.py and exercised by the native battery only.
 
+/// FromIterator on elements whose key is a projection: the *first* element of every key is kept, with its own content
+pub fn collect_kv_3() {
+  let e: [KV; 3] = [KV { k: any(), v: any() }, KV { k: any(), v: any() }, KV { k: any(), v: any() }];
+  let c: OrderedSet<KV> = e.iter().cloned().collect();
+  let s = c.as_slice();
+  let d1 = e[1].k != e[0].k;
+  let d2 = e[2].k != e[0].k && e[2].k != e[1].k;
+  let n = 1 + d1 as usize + d2 as usize;
+  assert_eq!(s.len(), n);
+  assert!(s[0] == e[0]);
+  if d1 {
+    assert!(s[1] == e[1]);
+  }
+  if d2 {
+    assert!(s[n - 1] == e[2]);
+  }
+  sym_cover!(!d1 && e[1].v != e[0].v, "repeated key with different content");
+  core::mem::forget(c);
+}
+proof!(c19_collect_kv_3, unwind = 6, collect_kv_3);
+
 /// TryFrom<Vec> rejects exactly the lists with duplicate keys; FromIterator keeps first occurrences
 pub fn from_vec_3() {
   let a: [u8; 3] = [any(), any(), any()];
@@ -205,5 +226,6 @@ pub const BODIES: &[(&str, fn())] = &[
   ("c19_remove_2", b_remove_2),
   ("c19_remove_3", b_remove_3),
   ("c19_from_vec_3", from_vec_3),
+  ("c19_collect_kv_3", collect_kv_3),
   ("c19_twin_must_fail", twin_must_fail),
 ];
